@@ -111,24 +111,37 @@ where
             // initial fill-up
             self.reservoir.push(obj)
         } else if self.i < t {
-            // normal reservoir sampling
-            let j: usize = self.rng.gen_range(0..self.i);
-            if j < self.k {
+            // normal reservoir sampling: the element with (zero-based) index `i` is kept with
+            // probability `k / (i + 1)`
+            let p = (self.k as f64) / ((self.i + 1) as f64);
+            if self.rng.gen_bool(p) {
+                let j: usize = self.rng.gen_range(0..self.k);
                 self.reservoir[j] = obj;
             }
-        } else if self.i >= self.skip_until {
+        } else {
             // fast skipping approximation
-            let j: usize = self.rng.gen_range(0..self.k);
-            self.reservoir[j] = obj;
+            if self.i == t {
+                // entering this phase: its first element is subject to sampling as well
+                self.skip_until = self.i + self.gap(self.i);
+            }
+            if self.i >= self.skip_until {
+                // calculate next skip
+                self.skip_until = self.i + 1 + self.gap(self.i + 1);
 
-            // calculate next skip
-            let p = (self.k as f64) / ((self.i + 1) as f64);
-            let u = 1f64 - self.rng.gen_range((0.)..1.); // (0.0, 1.0]
-            let g = (u.ln() / (1. - p).ln()).floor() as usize;
-            self.skip_until = self.i + g;
+                let j: usize = self.rng.gen_range(0..self.k);
+                self.reservoir[j] = obj;
+            }
         }
 
         self.i += 1;
+    }
+
+    /// Number of elements to skip before the next one is taken, given that the element with
+    /// (zero-based) index `next` is taken with probability `k / (next + 1)`.
+    fn gap(&mut self, next: usize) -> usize {
+        let p = (self.k as f64) / ((next + 1) as f64);
+        let u = 1f64 - self.rng.gen_range((0.)..1.); // (0.0, 1.0]
+        (u.ln() / (1. - p).ln()).floor() as usize
     }
 
     /// Checks if reservoir is empty (i.e. no data points where observed)
